@@ -160,6 +160,9 @@ func (c *Ctx) BFS(sc *Scenario) {
 			m := metas[j.ID]
 			c.Transitions++
 			c.Traces++
+			c.noteSlow(t.Micros, func() string {
+				return fmt.Sprintf("%s: seed %s path %v then %s", sc.Name, m.st.seed.Name, pathNames(m.st.path), m.act.Name)
+			})
 			if t.Err != "" {
 				c.HarnessError(sc.Name + ": " + t.Err)
 				return
@@ -334,4 +337,21 @@ func mergeActions(lists ...[]Action) []Action {
 		}
 	}
 	return out
+}
+
+type slowJob struct {
+	Micros int64
+	What   string
+}
+
+// noteSlow keeps the slowest executions (reported in the evidence; useful for sizing).
+func (c *Ctx) noteSlow(us int64, what func() string) {
+	c.TotalMicros += us
+	if len(c.Slow) < 8 || us > c.Slow[len(c.Slow)-1].Micros {
+		c.Slow = append(c.Slow, slowJob{us, what()})
+		sort.Slice(c.Slow, func(i, j int) bool { return c.Slow[i].Micros > c.Slow[j].Micros })
+		if len(c.Slow) > 8 {
+			c.Slow = c.Slow[:8]
+		}
+	}
 }
